@@ -116,6 +116,12 @@ impl Buildpack for Bp {
         match spec.get("result").and_then(Value::as_str).unwrap_or("ok") {
             "ok" => {
                 let mut b = BuildResultBuilder::new();
+                // the builder's setters can be called in any order ("order": a permutation of launch / store / bsbom / lsbom)
+                let default_order = [json!("launch"), json!("store"), json!("bsbom"), json!("lsbom")];
+                let order: Vec<String> = spec.get("order").and_then(Value::as_array).map_or(&default_order[..], Vec::as_slice).iter().map(|x| x.as_str().unwrap().to_string()).collect();
+                for part in order {
+                match part.as_str() {
+                "launch" =>
                 if let Some(l) = spec.get("launch").filter(|l| !l.is_null()) {
                     let mut lb = LaunchBuilder::new();
                     for p in jarr(l, "processes") {
@@ -129,7 +135,8 @@ impl Buildpack for Bp {
                         lb.label(libcnb::data::launch::Label { key: kv[0].as_str().unwrap().into(), value: kv[1].as_str().unwrap().into() });
                     }
                     b = b.launch(lb.build());
-                }
+                },
+                "store" =>
                 if let Some(s) = spec.get("store").filter(|s| !s.is_null()) {
                     let mut t = toml_table_from_json(s);
                     if let Some(n) = spec.get("store_hashmap_keys").and_then(Value::as_u64) {
@@ -140,12 +147,16 @@ impl Buildpack for Bp {
                         }
                     }
                     b = b.store(Store { metadata: t });
-                }
+                },
+                "bsbom" =>
                 for f in jarr(spec, "build_sboms") {
                     b = b.build_sbom(Sbom::from_bytes(sbom_format(f.as_str().unwrap()), format!("{{\"build\":\"{}\"}}", f.as_str().unwrap())));
-                }
+                },
+                _ =>
                 for f in jarr(spec, "launch_sboms") {
                     b = b.launch_sbom(Sbom::from_bytes(sbom_format(f.as_str().unwrap()), format!("{{\"launch\":\"{}\"}}", f.as_str().unwrap())));
+                },
+                }
                 }
                 b.build()
             }
